@@ -64,3 +64,31 @@ Theorem C17_equal_ticks_equal_writer : forall m p p' d k,
   m_writer (fst (write_video m p d k)) = m_writer (fst (write_video m p' d k)).
 Proof. exact equal_ticks_equal_writer. Qed.
 Print Assumptions C17_equal_ticks_equal_writer.
+
+From Muxide Require Export Model.F64 Model.Writer Model.Api Spec.Paths Proofs.PathProofs.
+(* WHOLE HISTORIES: replacing every automatic-timestamp convenience call of a history by the
+   explicit-timestamp call with the clock value and keyframe flag it would have used (Paths.explicit_of,
+   the translation the check also runs on the real crate) changes no result and no byte of the file *)
+Theorem C17_explicit_path_equivalent : forall b script m0 ops,
+  build b script = inl m0 ->
+  snd (run m0 (explicit_of m0 ops)) = snd (run m0 ops) /\
+  m_writer (fst (run m0 (explicit_of m0 ops))) = m_writer (fst (run m0 ops)).
+Proof. exact explicit_path_equivalent. Qed.
+Print Assumptions C17_explicit_path_equivalent.
+
+Theorem C17_explicit_path_same_file : forall b script m0 ops,
+  build b script = inl m0 -> sink_of (fst (run m0 (explicit_of m0 ops))) = sink_of (fst (run m0 ops)).
+Proof. exact explicit_path_same_file. Qed.
+Print Assumptions C17_explicit_path_same_file.
+
+(* the automatic clocks always hold values that survive the bit-pattern round trip *)
+Theorem C17_clocks_round_trip : forall b script m0 ops, build b script = inl m0 ->
+  decode64 (encode64 (m_cur_vpts (fst (run m0 ops)))) = m_cur_vpts (fst (run m0 ops)) /\
+  decode64 (encode64 (m_cur_apts (fst (run m0 ops)))) = m_cur_apts (fst (run m0 ops)).
+Proof. exact reachable_clocks_round_trip. Qed.
+Print Assumptions C17_clocks_round_trip.
+
+(* builder aliases over whole builder scripts *)
+Theorem C17_alias_script_same_builder : forall l, run_builder (map alias_bop l) = run_builder l.
+Proof. exact alias_script_same_builder. Qed.
+Print Assumptions C17_alias_script_same_builder.
